@@ -1197,9 +1197,7 @@ class Gen:
         if rng.random() < 0.2:
             s = rng.choice(self.spaces())
             v = rng.choice([True, False])
-            if not v and self.none_allowed:
-                self.notes["not_drawn:C02_wide_4:allow_none_switched_off_after_it_was_on"] += 1
-                return False
+            # C02_wide_4 is repaired in /repo: switching allow_none off after it was on is generated
             self.none_allowed = self.none_allowed or v
             self.emit({"op": "sflag", "p": m.path(s), "v": v}, "space_allow_none")
             return True
@@ -1208,16 +1206,9 @@ class Gen:
             return False
         s, n = rng.choice(own)
         fl = rng.choice(["allow_none", "is_cached", "is_cached"])
-        if fl == "allow_none" and (m.param_root(s) is not None or any(d["pf"] and d["pf"].get("kind") == "base_by_space_ref" for d in m.sp.values())):
-            # trigger of finding C02_wide_3: the copies of the cells in existing ItemSpaces keep the old flag
-            self.notes["not_drawn:C02_wide_3:allow_none_of_a_cells_that_ItemSpaces_may_hold_copies_of"] += 1
-            return False
+        # C02_wide_3 (allow_none of a cells whose copies ItemSpaces hold) is repaired in /repo: generated
         v = rng.choice([True, False, False]) if fl == "is_cached" else rng.choice([True, False])
         if fl == "allow_none":
-            if not v and self.none_allowed:
-                # trigger of finding C02_wide_4: None values computed while the flag was on (at any level) stay
-                self.notes["not_drawn:C02_wide_4:allow_none_switched_off_after_it_was_on"] += 1
-                return False
             self.none_allowed = self.none_allowed or v
         self.emit({"op": "flag", "p": m.path(s), "name": n, "flag": fl, "v": v}, "set_" + fl)
         return True
